@@ -306,6 +306,7 @@ def run(ctx):
                                      "a CAS failed or a trywait failed in the implementation trace"})
         if (not ok or ctx.failures) and not ctx.violations:
             search(ctx, exe)
+    core.init_contract(ctx, ["fiber_semaphore"])  # rt/h_init.c: real init on dirty memory
     core.finish(ctx, extra_assumptions=ASSUME)
 
 
@@ -326,6 +327,8 @@ def search(ctx, exe):
 
 
 def replay(ctx, payload):
+    if payload.get("harness") == "h_init":
+        return core.replay_init(ctx, payload)
     exe = build(ctx)
     c = payload.get("case")
     if not exe or not c:
